@@ -1,6 +1,8 @@
 import Toq.Model.ChannelOps
 import Toq.Spec.ChannelOps
 import Toq.Proofs.ChannelOps
+import Toq.Spec.ChannelOpsExtra
+import Toq.Proofs.ChannelOpsExtra
 /-!
 # C05 — dual and complementary maps satisfy their defining identities
 
@@ -136,6 +138,85 @@ theorem unital_iff_dual_tp (as bs : List (Mat α)) (d_in d_out : Nat)
         tr d_in (applyKrausLists ⟨d_out, d_out, Y⟩ (as.map Mat.ct) (bs.map Mat.ct)).e = tr d_out Y :=
   unital_iff_dual_tp_lists as bs d_in d_out ha hb hl
 
+/-- **`Φ` preserves the trace exactly when `Φ*` is unital** (the mirror image of the previous theorem,
+    obtained from it through the double dual). -/
+theorem tp_iff_dual_unital (as bs : List (Mat α)) (d_in d_out : Nat)
+    (ha : Shaped as d_out d_in) (hb : Shaped bs d_out d_in) (hl : as.length = bs.length) :
+    (∀ X : Nat → Nat → α, tr d_out (applyKrausLists ⟨d_in, d_in, X⟩ as bs).e = tr d_in X)
+      ↔ ∀ a b, a < d_in → b < d_in →
+        (applyKrausLists (identity d_out) (as.map Mat.ct) (bs.map Mat.ct)).e a b = (identity (α := α) d_in).e a b := by
+  have := unital_iff_dual_tp_lists (as.map Mat.ct) (bs.map Mat.ct) d_out d_in
+    (shaped_map_ct as _ _ ha) (shaped_map_ct bs _ _ hb) (by simpa using hl)
+  rw [map_ct_ct, map_ct_ct] at this
+  exact this.symm
+
+/-! ## trace preservation / unitality criteria on Kraus operators and on the Choi matrix -/
+
+/-- **`Φ` preserves the trace ⇔ `Σ_k B_kᴴ A_k = 1`.**  For `Φ(X) = Σ_k A_k X B_kᴴ` (operators of shape
+    `d_out × d_in`, any number of them; for a completely positive list `B = A` this is the completeness
+    relation `Σ K_kᴴ K_k = 1` that `complementary_channel` tests): `tr Φ(X) = tr X` for *all* `X`, with `Φ(X)` the
+    output of the `apply_channel` model, iff the `(j, i)` entry `Σ_k Σ_a conj(B_k[a,j])·A_k[a,i]` is `δ_ji`. -/
+theorem tp_iff_kraus_complete (as bs : List (Mat α)) (d_in d_out : Nat)
+    (ha : Shaped as d_out d_in) (hb : Shaped bs d_out d_in) (hl : as.length = bs.length) :
+    (∀ X : Nat → Nat → α, tr d_out (applyKrausLists ⟨d_in, d_in, X⟩ as bs).e = tr d_in X)
+      ↔ ∀ j i, j < d_in → i < d_in → sumBdA as.length (fam as) (fam bs) d_out j i = idMat j i := by
+  have e : ∀ X : Nat → Nat → α, (applyKrausLists ⟨d_in, d_in, X⟩ as bs).e
+      = applySpec as.length (fam as) (fam bs) d_in d_in X := by
+    intro X; funext a b
+    exact applyKrausLists_e ⟨d_in, d_in, X⟩ as bs d_out d_out ha hb hl a b
+  simp only [e]
+  exact applySpec_tp_iff as.length (fam as) (fam bs) d_in d_out
+
+omit [StarRing α] in
+/-- **Choi form: `Φ_J` preserves the trace ⇔ `Tr_out J = 1`.**  For *any* matrix `J` of shape
+    `(d_in·d_out) × (d_in·d_out)`: `tr Φ_J(X) = tr X` for all `X`, with `Φ_J(X)` the output of the Choi branch of
+    `apply_channel`, iff the partial trace of `J` over the output factor, `Σ_a J[(i,a),(j,a)]`, is `δ_ij`. -/
+theorem tp_iff_choi_ptrace (J : Mat α) (d_in d_out : Nat) (hdi : 0 < d_in)
+    (hJr : J.r = d_in * d_out) (hJc : J.c = d_in * d_out) :
+    (∀ X : Nat → Nat → α, tr d_out (applyChoi ⟨d_in, d_in, X⟩ J).e = tr d_in X)
+      ↔ ∀ i j, i < d_in → j < d_in → ptraceOut J.e d_out i j = idMat i j := by
+  have e : ∀ X : Nat → Nat → α, tr d_out (applyChoi ⟨d_in, d_in, X⟩ J).e
+      = tr d_out (applyChoiSpec J.e d_in d_in d_out d_out X) := by
+    intro X
+    unfold tr
+    apply sumN_congr; intro a ha
+    exact applyChoi_e ⟨d_in, d_in, X⟩ J d_out d_out hdi hdi hJr hJc a a ha ha
+  simp only [e]
+  exact choiSpec_tp_iff J.e d_in d_out
+
+omit [StarRing α] in
+/-- **Choi form: `Φ_J` is unital ⇔ `Tr_in J = 1`.**  `Φ_J(1) = 1` iff the partial trace of `J` over the input
+    factor, `Σ_i J[(i,a),(i,b)]`, is `δ_ab`. -/
+theorem unital_iff_choi_ptrace (J : Mat α) (d_in d_out : Nat) (hdi : 0 < d_in)
+    (hJr : J.r = d_in * d_out) (hJc : J.c = d_in * d_out) :
+    (∀ a b, a < d_out → b < d_out → (applyChoi (identity d_in) J).e a b = idMat a b)
+      ↔ ∀ a b, a < d_out → b < d_out → ptraceIn J.e d_in d_out a b = idMat a b := by
+  have e : ∀ a b, a < d_out → b < d_out → (applyChoi (identity d_in) J).e a b = ptraceIn J.e d_in d_out a b := by
+    intro a b ha hb
+    rw [applyChoi_e (identity d_in) J d_out d_out hdi hdi hJr hJc a b ha hb]
+    exact applyChoiSpec_id J.e d_in d_out a b
+  constructor
+  · intro h a b ha hb; rw [← e a b ha hb]; exact h a b ha hb
+  · intro h a b ha hb; rw [e a b ha hb]; exact h a b ha hb
+
+omit [StarRing α] in
+/-- **The two partial traces of the Choi matrix are `partial_trace`.**  `Tr_out J` / `Tr_in J` of the two
+    criteria above are what the mirror model of `toqito.channels.partial_trace` (property C02) returns for
+    `partial_trace(J, [1], [d_in, d_out])` / `partial_trace(J, [0], [d_in, d_out])`. -/
+theorem choi_ptrace_is_partial_trace (J : Nat → Nat → α) (d_in d_out : Nat) (hdi : 0 < d_in) (hdo : 0 < d_out) :
+    (∀ i j, i < d_in → j < d_in →
+      Toq.PartialOps.partialTrace J 2 (fnOfList [d_in, d_out]) [1] i j = ptraceOut J d_out i j) ∧
+    (∀ a b, a < d_out → b < d_out →
+      Toq.PartialOps.partialTrace J 2 (fnOfList [d_in, d_out]) [0] a b = ptraceIn J d_in d_out a b) :=
+  ⟨fun i j hi hj => ptraceOut_eq_partialTrace J d_in d_out hdi hdo i j hi hj,
+   fun a b ha hb => ptraceIn_eq_partialTrace J d_in d_out hdi hdo a b ha hb⟩
+
+/-- **The dual keeps the reading of the list**: a list that the cascade of `apply_channel` reads as a
+    completely positive map (one operator list used on both sides) is returned by `dual_channel` as a list that
+    is read as completely positive again, and a list of left/right pairs stays a list of pairs. -/
+theorem dual_keeps_cp_reading (phi : KrausArg α) : (dualKraus phi).isCP = phi.isCP :=
+  isCP_dualKraus phi
+
 /-! ## `complementary_channel` -/
 
 /-- **Guard and result.**  On a non-empty list of `d × d` operators with `Σ_k K_kᴴ K_k = s·1` exactly (the
@@ -170,6 +251,42 @@ theorem compl_trace_preserving (rho : Mat α) (ops : List (Mat α)) (d : Nat) (h
     (hcomplete : ∀ a b, a < d → b < d → (sumKdK ops d).e a b = if a = b then 1 else 0) :
     tr ops.length (applyKrausLists rho (complList ops d) (complList ops d)).e = tr d rho.e :=
   compl_tp_lists rho ops d hr hc hs hcomplete
+
+/-- **The complementary family is complete again.**  For `d` operators of shape `d × d` (the case in which
+    `complementary_channel` accepts its own output) `Σ_row (Kᶜ_row)ᴴ Kᶜ_row = Σ_i K_iᴴ K_i`, entry by entry of what the
+    guard computes. -/
+theorem compl_complete (ops : List (Mat α)) (d : Nat) (hs : Shaped ops d d) (hl : ops.length = d) (a b : Nat) :
+    (sumKdK (complList ops d) d).e a b = (sumKdK ops d).e a b :=
+  sumKdK_complList ops d hs hl a b
+
+/-- **The complement of the complement is the original family.**  For `d` complete operators of shape `d × d`
+    the model accepts the family, accepts the returned family as well, and the second result has the entries
+    of the first input: `(Kᶜ)ᶜ_i[row, c] = K_i[row, c]`.  (For `r ≠ d` operators the code rejects its own
+    output as non-square; on the level of families the row-stacking is an involution for every shape:
+    `complStack (complStack K) = K`.) -/
+theorem compl_compl [DecidableEq α] (ops : List (Mat α)) (d : Nat) (s : α)
+    (hs : Shaped ops d d) (hne : ops ≠ []) (hl : ops.length = d)
+    (hcomplete : ∀ i j, i < d → j < d → (sumKdK ops d).e i j = if i = j then s else 0) :
+    complementary ops s = .ok (complList ops d) ∧
+    complementary (complList ops d) s = .ok (complList (complList ops d) d) ∧
+    (∀ i row c, i < d → row < d → fam (complList (complList ops d) d) i row c = fam ops i row c) ∧
+    complStack (complStack (fam ops)) = fam ops := by
+  have hs' : Shaped (complList ops d) d d := by
+    have := complList_shaped ops d
+    rwa [hl] at this
+  have hne' : complList ops d ≠ [] := by
+    intro h0
+    have := complList_length ops d
+    rw [h0] at this
+    have : ops.length = 0 := by rw [hl]; exact this.symm
+    exact hne (List.length_eq_zero_iff.mp this)
+  refine ⟨complementary_ok ops d s hs hne hcomplete, ?_, ?_, rfl⟩
+  · apply complementary_ok (complList ops d) d s hs' hne'
+    intro i j hi hj
+    rw [sumKdK_complList ops d hs hl i j]
+    exact hcomplete i j hi hj
+  · intro i row c hi hrow
+    exact fam_complList_complList ops d i row c hi hrow
 
 end Toq.C05
 
@@ -210,6 +327,41 @@ theorem compl_spectrum_pure_model (ops : List (Mat α)) (d : Nat) (hs : Shaped o
       = Polynomial.X ^ d *
         (toM ops.length ops.length (applyKrausLists rho (complList ops d) (complList ops d)).e).charpoly :=
   compl_spectrum_model ops d hs psi rho hr hc hrho
+
+/-! ## complete positivity of the dual (Choi form) -/
+
+/-- **`Φ` is completely positive iff `Φ*` is (Choi form).**  For a square matrix `J` of shape
+    `(d_in·d_out) × (d_in·d_out)` over an ordered commutative star-ring (ℂ, ℝ, ℚ[i] …): the matrix returned by
+    `dual_channel(J, [[d_in, d_out], [d_in, d_out]])` is positive semidefinite (Mathlib's `Matrix.PosSemidef`)
+    exactly when `J` is — by Choi's theorem (cited, not formalised here) positive semidefiniteness of the Choi
+    matrix is complete positivity of the map.  (For Kraus lists the corresponding statement is
+    `dual_keeps_cp_reading`.) -/
+theorem dual_choi_psd_iff {R : Type} [CommRing R] [PartialOrder R] [StarRing R] (J : Mat R) (d_in d_out : Nat)
+    (hJr : J.r = d_in * d_out) (hJc : J.c = d_in * d_out) :
+    ∃ D, dualChoi J (.mat d_in d_out d_in d_out) = .ok D ∧ D.r = d_out * d_in ∧ D.c = d_out * d_in ∧
+      ((toM (d_out * d_in) (d_out * d_in) D.e).PosSemidef ↔ (toM (d_in * d_out) (d_in * d_out) J.e).PosSemidef) := by
+  obtain ⟨D, hD, hDr, hDc, hDe⟩ := dualChoi_e J d_in d_out d_in d_out hJr hJc
+  refine ⟨D, hD, hDr, hDc, ?_, psd_dual_entries J.e D.e d_in d_out hDe⟩
+  intro hPD
+  -- back through the double dual: the entries of the dual of `D` are those of `J`
+  let JJ : Nat → Nat → R := fun p q => HasConj.conj (D.e ((p % d_out) * d_in + p / d_out) ((q % d_out) * d_in + q / d_out))
+  have hJJ : ∀ i a j b, i < d_in → a < d_out → j < d_in → b < d_out →
+      JJ (i * d_out + a) (j * d_out + b) = HasConj.conj (D.e (a * d_in + i) (b * d_in + j)) := by
+    intro i a j b _ ha _ hb
+    obtain ⟨h1, h2⟩ := divmod_be i d_out a ha
+    obtain ⟨h3, h4⟩ := divmod_be j d_out b hb
+    simp only [JJ, h1, h2, h3, h4]
+  have hpsd := psd_dual_entries D.e JJ d_out d_in hJJ hPD
+  have heq : toM (d_in * d_out) (d_in * d_out) JJ = toM (d_in * d_out) (d_in * d_out) J.e := by
+    rw [toM_eq_iff]
+    intro p q hp hq
+    obtain ⟨h1, h2, h3⟩ := index_split p d_in d_out hp
+    obtain ⟨h4, h5, h6⟩ := index_split q d_in d_out hq
+    have e1 := hJJ (p / d_out) (p % d_out) (q / d_out) (q % d_out) h1 h2 h4 h5
+    rw [h3, h6] at e1
+    rw [e1, hDe (p % d_out) (p / d_out) (q % d_out) (q / d_out) h2 h1 h5 h4, h3, h6, conj_eq_star, conj_eq_star,
+      star_star]
+  rwa [heq] at hpsd
 
 /-! ## non-vacuity -/
 
